@@ -145,7 +145,9 @@ def _r1(ctx, pkg):
 
 def _blank_guard(g, pol):
     s = show(g)
-    if "strip()" in s and "!=" in s and "''" in s and pol:
+    if "strip()" in s and "''" in s and (("!=" in s and pol) or ("==" in s and "!=" not in s and not pol)):
+        return True
+    if g == ("param", "react_string") and pol:
         return True
     if g[0] == "bool" and g[1] == "And":
         return any(_blank_guard(x, pol) for x in g[2]) if pol else False
